@@ -21,6 +21,8 @@ def run(prop, repo=None):
     rs = selftest.run_selftest(prop, repo or os.environ.get('QV_REPO', '/repo'))
     summ = selftest.summarise(rs)
     bad = [r for r in rs if r['status'] in selftest.BAD]
+    mech = selftest.run_mechanical(prop, repo or os.environ.get('QV_REPO', '/repo'))
+    mech_bad = [r for r in mech if r['status'] != 'silent']
     extra = None
     if mod is not None and hasattr(mod, 'thorough_extra'):
         try:
@@ -39,6 +41,12 @@ def run(prop, repo=None):
              "a variant whose anchor text no longer occurs is not-applicable",
         failures=[dict(name=r['name'], kind=r['kind'], status=r['status'], fired=r['fired']) for r in bad],
         samples=[dict(name=r['name'], kind=r['kind'], status=r['status'], fired=r['fired']) for r in rs[:6]])
+    ev['coverage']['mechanical_refactorings'] = dict(
+        rewrites=len(mech), silent=len(mech) - len(mech_bad),
+        rule="every function of the property's anchored Python files rewritten three ways (all locals renamed; every "
+             "comparison flipped a<b -> b>a; every if/else and conditional expression exchanged under the negated test); "
+             "the check must stay silent on each rewritten tree",
+        failures=mech_bad[:20])
     if extra:
         ev['coverage']['cross_reference'] = extra.get('summary')
         if extra.get('gating'):
@@ -49,8 +57,12 @@ def run(prop, repo=None):
     ev['wall_s'] = round(time.time() - t0, 3)
     p.write_text(json.dumps(ev, indent=1, default=str))
     print("%s thorough: self-test %s" % (prop, summ))
+    print("%s thorough: mechanical refactorings %d, non-silent %d" % (prop, len(mech), len(mech_bad)))
     for r in bad:
         print("  CHECKER-DEFECT %s variant %s: %s %s" % (r['kind'], r['name'], r['status'], r['fired']))
+    for r in mech_bad[:10]:
+        print("  CHECKER-DEFECT mechanical refactoring %s: %s %s" % (r['name'], r['status'], r.get('fired')))
+    bad = bad + mech_bad
     if bad and code == 0:
         print("ANALYSIS-ERROR property=%s the checker failed its own two-way self-test" % prop)
         return 2
